@@ -536,8 +536,24 @@ func (c *Ctx) c18Text() {
 		if v == ssa.Value(esc) {
 			return true
 		}
+		if bo, ok := v.(*ssa.BinOp); ok && bo.Op == token.ADD {
+			return derives(bo.X, depth+1) || derives(bo.Y, depth+1)
+		}
 		call, ok := v.(*ssa.Call)
-		if !ok || !allowed[eng.CalleeName(call.Common())] {
+		if !ok {
+			return false
+		}
+		if !allowed[eng.CalleeName(call.Common())] {
+			// a helper of the same package that post-processes its argument the allowed way
+			g := eng.StaticCallee(call.Common())
+			if g == nil || eng.FuncPkgPath(g) != eng.FuncPkgPath(fn) || len(g.Blocks) == 0 {
+				return false
+			}
+			for i, a := range call.Call.Args {
+				if i < len(g.Params) && derives(a, depth+1) && helperPassesThrough(g, g.Params[i], allowed, 0) {
+					return true
+				}
+			}
 			return false
 		}
 		for _, a := range call.Call.Args {
@@ -555,7 +571,9 @@ func (c *Ctx) c18Text() {
 	// nothing may undo the escaping: walk every value derived from the escaped text (in
 	// TextToHTML and in the callback that wraps URLs) and check each consumer
 	markup := func(s string) bool { return strings.ContainsAny(s, "<>\"'") }
-	checkDerived := func(start ssa.Value, where *ssa.Function) {
+	var checkDerived func(start ssa.Value, where *ssa.Function)
+	visitedHelper := map[*ssa.Function]bool{}
+	checkDerived = func(start ssa.Value, where *ssa.Function) {
 		seen := map[ssa.Value]bool{start: true}
 		work := []ssa.Value{start}
 		for len(work) > 0 {
@@ -568,6 +586,11 @@ func (c *Ctx) c18Text() {
 				call, ok := ref.(*ssa.Call)
 				if !ok {
 					switch y := ref.(type) {
+					case *ssa.BinOp:
+						if y.Op == token.ADD && !seen[y] {
+							seen[y] = true
+							work = append(work, y)
+						}
 					case *ssa.MakeInterface:
 						if !seen[y] {
 							seen[y] = true
@@ -600,6 +623,19 @@ func (c *Ctx) c18Text() {
 					}
 				case "fmt.Sprintf", "(*regexp.Regexp).ReplaceAllStringFunc", "(*strings.Replacer).Replace", "builtin.len":
 				default:
+					if g := eng.StaticCallee(call.Common()); g != nil && eng.FuncPkgPath(g) == eng.FuncPkgPath(fn) && len(g.Blocks) > 0 {
+						for i, a := range call.Call.Args {
+							if a == v && i < len(g.Params) && !visitedHelper[g] {
+								visitedHelper[g] = true
+								checkDerived(g.Params[i], g)
+							}
+						}
+						if !seen[call] {
+							seen[call] = true
+							work = append(work, call)
+						}
+						continue
+					}
 					probs = append(probs, "escaped text is passed to "+name+" at "+p.InstrPos(call)+" in "+shortFn(where)+": this can undo html.EscapeString (e.g. html.UnescapeString turns &#34; back into a quote inside the generated href)")
 					continue
 				}
@@ -615,25 +651,64 @@ func (c *Ctx) c18Text() {
 	}
 	checkDerived(wrap.Params[0], wrap)
 	// WrapURL: constant format, arguments derived from its (already escaped) parameter
-	okWrap := false
-	eng.EachInstr(wrap, func(in ssa.Instruction) {
-		if call, ok := in.(*ssa.Call); ok && eng.CalleeName(call.Common()) == "fmt.Sprintf" {
-			if _, isC := eng.ConstString(call.Call.Args[0]); isC {
-				okWrap = true
+	okWrap := true
+	nWrapRet := 0
+	var builtFromConsts func(v ssa.Value, depth int) bool
+	builtFromConsts = func(v ssa.Value, depth int) bool {
+		if depth > 8 {
+			return false
+		}
+		if _, isC := eng.ConstString(v); isC {
+			return true
+		}
+		if v == ssa.Value(wrap.Params[0]) {
+			return true
+		}
+		switch x := v.(type) {
+		case *ssa.BinOp:
+			return x.Op == token.ADD && builtFromConsts(x.X, depth+1) && builtFromConsts(x.Y, depth+1)
+		case *ssa.MakeInterface:
+			return builtFromConsts(x.X, depth+1)
+		case *ssa.Call:
+			switch eng.CalleeName(x.Common()) {
+			case "fmt.Sprintf":
+				if _, isC := eng.ConstString(x.Call.Args[0]); !isC {
+					return false
+				}
+				for _, a := range sprintfArgs(x) {
+					if !builtFromConsts(a, depth+1) {
+						return false
+					}
+				}
+				return true
+			case "strings.ReplaceAll", "strings.Replace":
+				return builtFromConsts(x.Call.Args[0], depth+1)
 			}
 		}
-	})
-	if !okWrap {
-		probs = append(probs, "WrapURL does not build its anchor from a constant format string")
+		return false
+	}
+	for _, ret := range successReturns(wrap) {
+		nWrapRet++
+		if !builtFromConsts(ret.Results[0], 0) {
+			okWrap = false
+		}
+	}
+	if !okWrap || nWrapRet == 0 {
+		probs = append(probs, "WrapURL does not build its anchor from constant markup around its (already escaped) parameter")
 	}
 	// the replacer's replacement strings are constants
-	eng.EachInstr(fn, func(in ssa.Instruction) {
-		if call, ok := in.(*ssa.Call); ok && eng.CalleeName(call.Common()) == "strings.NewReplacer" {
-			if _, all := variadicStrings(call.Call.Args[0]); !all {
-				probs = append(probs, "strings.NewReplacer is given non-constant replacement strings")
-			}
+	for g := range p.SyncReach(fn) {
+		if eng.FuncPkgPath(g) != eng.FuncPkgPath(fn) {
+			continue
 		}
-	})
+		eng.EachInstr(g, func(in ssa.Instruction) {
+			if call, ok := in.(*ssa.Call); ok && eng.CalleeName(call.Common()) == "strings.NewReplacer" {
+				if _, all := variadicStrings(call.Call.Args[0]); !all {
+					probs = append(probs, "strings.NewReplacer is given non-constant replacement strings")
+				}
+			}
+		})
+	}
 	sort.Strings(probs)
 	if len(probs) > 0 {
 		r.Bad("C18/TEXT", "web.TextToHTML", p.Pos(fn.Pos()), "%s", strings.Join(probs, "; "))
@@ -723,4 +798,42 @@ func isAllowLookup(v ssa.Value, allowedG *ssa.Global, isName func(ssa.Value) boo
 	}
 	lc, ok := lk.Index.(*ssa.Call)
 	return ok && eng.CalleeName(lc.Common()) == "strings.ToLower" && isName(lc.Call.Args[0])
+}
+
+// helperPassesThrough: every return of g derives from parameter prm through the allowed
+// post-processing calls (and concatenation).
+func helperPassesThrough(g *ssa.Function, prm *ssa.Parameter, allowed map[string]bool, depth int) bool {
+	if depth > 3 {
+		return false
+	}
+	var derives func(v ssa.Value, d int) bool
+	derives = func(v ssa.Value, d int) bool {
+		if d > 8 {
+			return false
+		}
+		if v == ssa.Value(prm) {
+			return true
+		}
+		if bo, ok := v.(*ssa.BinOp); ok && bo.Op == token.ADD {
+			return derives(bo.X, d+1) || derives(bo.Y, d+1)
+		}
+		call, ok := v.(*ssa.Call)
+		if !ok || !allowed[eng.CalleeName(call.Common())] {
+			return false
+		}
+		for _, a := range call.Call.Args {
+			if derives(a, d+1) {
+				return true
+			}
+		}
+		return false
+	}
+	n := 0
+	for _, ret := range successReturns(g) {
+		n++
+		if len(ret.Results) != 1 || !derives(ret.Results[0], 0) {
+			return false
+		}
+	}
+	return n > 0
 }
